@@ -1,11 +1,12 @@
 //@unit C06_joins
 //@props C06
-//@desc The join builders of ClipperOffset place their vertices where the property says they lie. DoBevel (j != k): exactly two vertices, the path vertex moved along the normal of the incoming edge (norms[k]) and along the normal of the outgoing edge (norms[j]) by the SIGNED group delta — the two corners of "the polygon moved only along its edge normals"; DoBevel (j == k, open-path end): the vertex moved by -|delta| and +|delta| along the single normal. DoMiter: one vertex, the intersection of the two offset edges, vertex + (n_k + n_j) * delta / (1 + cos). DoRound (no delta callback): the first vertex of the arc is the vertex moved along norms[k] by the signed delta (negated for an end cap), and at least one arc vertex is emitted. Floating-point sums, products and quotients are uninterpreted functions made commutative where IEEE is (R21b/c: real adders and multipliers did not finish in 600 s); the spec terms are built from the same functions in the order of the property's formula, so a changed operand (|delta| for delta, norms[j] for norms[k], a flipped sign) is a different term.
+//@desc The join builders of ClipperOffset place their vertices where the property says they lie. DoBevel (j != k): exactly two vertices, the path vertex moved along the normal of the incoming edge (norms[k]) and along the normal of the outgoing edge (norms[j]) by the SIGNED group delta — the two corners of "the polygon moved only along its edge normals"; DoBevel (j == k, open-path end): the vertex moved by -|delta| and +|delta| along the single normal. DoMiter: one vertex, the intersection of the two offset edges, vertex + (n_k + n_j) * delta / (1 + cos). DoSquare: the cut line runs through Q = vertex + |delta| * vec (unit bisector of the two edge directions, or the edge direction at an end cap) perpendicular to vec, it is intersected with the offset line of edge k (two points of edge k moved along norms[k] by the signed delta), and the two vertices are that intersection and its mirror image about Q (intersection and bisector themselves are stubs). DoRound (no delta callback): the first vertex of the arc is the vertex moved along norms[k] by the signed delta (negated for an end cap), and at least one arc vertex is emitted. Floating-point sums, products and quotients are uninterpreted functions made commutative where IEEE is (R21b/c: real adders and multipliers did not finish in 600 s); the spec terms are built from the same functions in the order of the property's formula, so a changed operand (|delta| for delta, norms[j] for norms[k], a flipped sign) is a different term.
 #include "vf.h"
 typedef struct { int64_t x, y; } Point64;
 typedef struct { double x, y; } PointD;
 typedef struct { Point64* data; size_t size; } Path64;
 typedef struct { PointD* data; size_t size; } PathD;
+typedef PointD PointT;
 typedef struct { double group_delta_, step_sin_, step_cos_, steps_per_rad_, arc_tolerance_; void* deltaCallback64_; PathD norms; Point64 out[8]; size_t nout; } ClipperOffset;
 #define VSEL3(a, b, c, N, ...) N
 int64_t __CPROVER_uninterpreted_round_i64(double);
@@ -41,7 +42,10 @@ void emit_sat_xy(ClipperOffset* s, double x, double y) { emit_sat(s, P64_2(x, y)
 #define PI 3.141592653589793238
 #define floating_point_tolerance 1e-12
 #define arc_const 0.002
-#define STATE_OK(self, path, j, k) (__CPROVER_is_fresh(self, sizeof(*self)) && path.size >= 1 && path.size <= 4 && __CPROVER_is_fresh(path.data, path.size * sizeof(Point64)) && \
+#ifndef MAXN
+#define MAXN 4
+#endif
+#define STATE_OK(self, path, j, k) (__CPROVER_is_fresh(self, sizeof(*self)) && path.size >= 1 && path.size <= MAXN && __CPROVER_is_fresh(path.data, path.size * sizeof(Point64)) && \
     self->norms.size == path.size && __CPROVER_is_fresh(self->norms.data, path.size * sizeof(PointD)) && j < path.size && k < path.size && self->nout == 0)
 /* the vertex p moved along the normal n by d (spec function, same IEEE operations in the order the property's formula has them) */
 #define MOVED_X(p, n, d) vf_r(vf_add((p).x, vf_fmul(d, (n).x)))
@@ -57,8 +61,8 @@ __CPROVER_requires(STATE_OK(self, path, j, k))
 __CPROVER_ensures(self->nout == 2)
 __CPROVER_ensures(j != k ==> AT(0, MOVED_X(path.data[j], self->norms.data[k], self->group_delta_), MOVED_Y(path.data[j], self->norms.data[k], self->group_delta_)))
 __CPROVER_ensures(j != k ==> AT(1, MOVED_X(path.data[j], self->norms.data[j], self->group_delta_), MOVED_Y(path.data[j], self->norms.data[j], self->group_delta_)))
-__CPROVER_ensures(j == k ==> AT(0, vf_r(vf_sub(path.data[j].x, vf_fmul(fabs(self->group_delta_), self->norms.data[j].x))), vf_r(vf_sub(path.data[j].y, vf_fmul(fabs(self->group_delta_), self->norms.data[j].y)))))
-__CPROVER_ensures(j == k ==> AT(1, MOVED_X(path.data[j], self->norms.data[j], fabs(self->group_delta_)), MOVED_Y(path.data[j], self->norms.data[j], fabs(self->group_delta_))))
+__CPROVER_ensures(j == k ==> AT(0, vf_r(vf_sub(path.data[j].x, vf_fmul(__CPROVER_fabs(self->group_delta_), self->norms.data[j].x))), vf_r(vf_sub(path.data[j].y, vf_fmul(__CPROVER_fabs(self->group_delta_), self->norms.data[j].y)))))
+__CPROVER_ensures(j == k ==> AT(1, MOVED_X(path.data[j], self->norms.data[j], __CPROVER_fabs(self->group_delta_)), MOVED_Y(path.data[j], self->norms.data[j], __CPROVER_fabs(self->group_delta_))))
 __CPROVER_assigns(self->out, self->nout)
 //@end
 //@extract file=CPP/Clipper2Lib/src/clipper.offset.cpp func=ClipperOffset::DoMiter self=ClipperOffset cpp=NOTHING byval=path vec=path,norms members=norms,path_out ifdef=MITER
@@ -92,11 +96,73 @@ __CPROVER_assigns(i, offsetVec, self->nout, __CPROVER_object_upto(self->out, siz
 __CPROVER_loop_invariant(i >= 1 && self->nout == (size_t)i && self->out[0].x == __CPROVER_loop_entry(self->out[0].x) && self->out[0].y == __CPROVER_loop_entry(self->out[0].y))
 __CPROVER_decreases(steps - i)
 //@end
+/* ---- DoSquare: the cut line passes through Q = vertex + |delta| * vec (vec = unit bisector, or the edge direction at an end cap), perpendicular to vec; it is intersected with the offset line of edge k; the two vertices are the intersection and its mirror image about Q ---- */
+static inline int64_t vf_bits(double d) { return *(const int64_t*)&d; }
+#define SAMED(a, b) (vf_bits(a) == vf_bits(b))
+#define SAMEP(p, X, Y) (SAMED((p).x, X) && SAMED((p).y, Y))
+PointD g_ga, g_gb, g_gc, g_gd, g_ip, g_v1, g_v2, g_vec; int g_ngsi, g_navg;
+bool vf_gsi(PointD a, PointD b, PointD c, PointD d, PointD* ip)
+__CPROVER_ensures(g_ngsi == __CPROVER_old(g_ngsi) + 1 && SAMEP(g_ga, a.x, a.y) && SAMEP(g_gb, b.x, b.y) && SAMEP(g_gc, c.x, c.y) && SAMEP(g_gd, d.x, d.y) && SAMEP(*ip, g_ip.x, g_ip.y))
+__CPROVER_assigns(g_ngsi, g_ga, g_gb, g_gc, g_gd, *ip);
+PointD vf_avg(PointD v1, PointD v2)
+__CPROVER_ensures(g_navg == __CPROVER_old(g_navg) + 1 && SAMEP(g_v1, v1.x, v1.y) && SAMEP(g_v2, v2.x, v2.y) && SAMEP(__CPROVER_return_value, g_vec.x, g_vec.y))
+__CPROVER_assigns(g_navg, g_v1, g_v2);
+//@extract file=CPP/Clipper2Lib/include/clipper2/clipper.core.h func=TranslatePoint cpp=NOTHING byval=pt ifdef=SQUARE
+//@pysub fops_all
+//@sub /^PointT TranslatePoint/PointD TranslatePoint/
+//@sub /return PointT\(/return PointD(/
+//@end
+//@extract file=CPP/Clipper2Lib/include/clipper2/clipper.core.h func=ReflectPoint cpp=NOTHING byval=pt,pivot ifdef=SQUARE
+//@pysub fops_all
+//@sub /^PointT ReflectPoint/PointD ReflectPoint/
+//@sub /return PointT\(/return PointD(/
+//@end
+//@extract file=CPP/Clipper2Lib/src/clipper.offset.cpp func=GetPerpendicD cpp=NOTHING byval=pt,norm ifdef=SQUARE
+//@pysub fops_all
+//@end
+#ifdef ENDCAP
+#define CASE(j, k) (j == k)
+#else
+#define CASE(j, k) (j != k)
+#endif
+#define VECX (j == k ? self->norms.data[j].y : g_vec.x)
+#define VECY (j == k ? -self->norms.data[j].x : g_vec.y)
+#define GD (self->group_delta_)
+#define QX vf_add((double)path.data[j].x, vf_fmul(__CPROVER_fabs(GD), VECX))
+#define QY vf_add((double)path.data[j].y, vf_fmul(__CPROVER_fabs(GD), VECY))
+#define PERP_X(p, n) vf_add((p).x, vf_fmul((n).x, GD))
+#define PERP_Y(p, n) vf_add((p).y, vf_fmul((n).y, GD))
+#define REFL(v, q) vf_add(q, vf_sub(q, v))
+//@extract file=CPP/Clipper2Lib/src/clipper.offset.cpp func=ClipperOffset::DoSquare self=ClipperOffset cpp=NOTHING byval=path vec=path,norms members=norms,path_out ifdef=SQUARE
+//@pysub fops_all
+//@sub /std::abs\(/fabs(/ min=0
+//@sub /GetAvgUnitVector\(/vf_avg(/
+//@sub /GetSegmentIntersectPt\(pt1, pt2, pt3, pt4, pt\)/vf_gsi(pt1, pt2, pt3, pt4, &pt)/ min=2
+//@sub /self->path_out\.emplace_back\(/VF_EMIT(self, / min=4
+//@contract
+__CPROVER_requires(STATE_OK(self, path, j, k) && g_ngsi == 0 && g_navg == 0 && CASE(j, k))
+/* the bisector is asked for between the two edge directions (normals turned by -90 and +90 degrees) */
+__CPROVER_ensures(j == k ? g_navg == 0 : (g_navg == 1 && SAMEP(g_v1, -self->norms.data[k].y, self->norms.data[k].x) && SAMEP(g_v2, self->norms.data[j].y, -self->norms.data[j].x)))
+/* cut line: through Q at distance |delta| from the vertex along vec, perpendicular to vec */
+__CPROVER_ensures(g_ngsi == 1 && SAMEP(g_ga, vf_add(QX, vf_fmul(GD, VECY)), vf_add(QY, vf_fmul(GD, -VECX))) && SAMEP(g_gb, vf_add(QX, vf_fmul(GD, -VECY)), vf_add(QY, vf_fmul(GD, VECX))))
+/* intersected with the offset line of edge k: both points are points of that edge moved along norms[k] by the signed delta */
+__CPROVER_ensures(SAMEP(g_gc, PERP_X(path.data[k], self->norms.data[k]), PERP_Y(path.data[k], self->norms.data[k])))
+__CPROVER_ensures(j != k ==> SAMEP(g_gd, PERP_X(path.data[j], self->norms.data[k]), PERP_Y(path.data[j], self->norms.data[k])))
+__CPROVER_ensures(j == k ==> SAMEP(g_gd, vf_add(g_gc.x, vf_fmul(VECX, GD)), vf_add(g_gc.y, vf_fmul(VECY, GD))))
+/* two vertices: the intersection and its mirror image about Q (mirror image first at an end cap) */
+__CPROVER_ensures(self->nout == 2)
+__CPROVER_ensures(j != k ==> (AT(0, vf_r(g_ip.x), vf_r(g_ip.y)) && AT(1, vf_r(REFL(g_ip.x, QX)), vf_r(REFL(g_ip.y, QY)))))
+__CPROVER_ensures(j == k ==> (AT(1, vf_r(g_ip.x), vf_r(g_ip.y)) && AT(0, vf_r(REFL(g_ip.x, QX)), vf_r(REFL(g_ip.y, QY)))))
+__CPROVER_assigns(self->out, self->nout, g_ngsi, g_ga, g_gb, g_gc, g_gd, g_navg, g_v1, g_v2)
+//@end
 #ifdef BEVEL
 void h_DoBevel(void) { ClipperOffset* s; Path64 p; size_t j, k; DoBevel(s, p, j, k); VF_CANARY(); }
 #endif
 #ifdef ROUND
 void h_DoRound(void) { ClipperOffset* s; Path64 p; size_t j, k; double a; DoRound(s, p, j, k, a); VF_CANARY(); }
+#endif
+#ifdef SQUARE
+void h_DoSquare(void) { ClipperOffset* s; Path64 p; size_t j, k; DoSquare(s, p, j, k); VF_CANARY(); }
 #endif
 #ifdef MITER
 void h_DoMiter(void) { ClipperOffset* s; Path64 p; size_t j, k; double c; DoMiter(s, p, j, k, c); VF_CANARY(); }
@@ -104,4 +170,7 @@ void h_DoMiter(void) { ClipperOffset* s; Path64 p; size_t j, k; double c; DoMite
 //@run name=DoBevel entry=h_DoBevel enforce=DoBevel defs=BEVEL flags="--bounds-check --pointer-check" unwind=9 timeout=300
 //@run name=DoMiter entry=h_DoMiter enforce=DoMiter defs=MITER flags="--bounds-check --pointer-check" unwind=9 timeout=300
 //@run name=DoRound entry=h_DoRound enforce=DoRound loops=1 defs=ROUND flags="--bounds-check --pointer-check" unwind=9 timeout=300
+//@run name=DoSquare.join entry=h_DoSquare enforce=DoSquare replace=vf_gsi,vf_avg defs=SQUARE,MAXN=2 flags="--bounds-check --pointer-check" unwind=9 timeout=600
+//@run name=DoSquare.endcap entry=h_DoSquare enforce=DoSquare replace=vf_gsi,vf_avg defs=SQUARE,MAXN=2,ENDCAP flags="--bounds-check --pointer-check" unwind=9 timeout=600
+//@assume A5 (C06_joins): GetSegmentIntersectPt(PointD) and GetAvgUnitVector are recording stubs that return arbitrary points (intersection accuracy and normalisation are not decided).
 //@assume R21b/c (commutative form): in this unit every floating-point product, quotient, sum and difference and the double->int64 rounding are applications of uninterpreted functions; products and sums order their operands by bit pattern first, so commuted operands give the same term. A rewrite that is bit-identical in IEEE arithmetic but not by commutativity (e.g. a + (-b)*c for a - b*c) would be reported although the property holds; none exists on the current tree.
